@@ -202,10 +202,10 @@ CLAIMED = {
         "text": "Machine-checked for ALL uids, modes and sysctl values: the emulated rule equals the kernel rule at trailing positions and -- "
                 "with the source restricting it to trailing links (T0) -- at every position; nothing is refused when the sysctl is 0; exact "
                 "characterisation of the refused cases; the syscall-level program decides by that rule on the kernel's stat answers. Exhaustive "
-                "correspondence on every run: 648 combinations (dir mode x dir owner x link owner x caller uid x position x sysctl) on the "
+                "correspondence on every run: 1296 combinations (dir mode x dir owner x link owner x caller uid x 6 positions incl. trailing slashes x sysctl) on the "
                 "emulated backend as that uid, the kernel's raw openat2 as that uid, and the Coq rules.",
         "note": "Trusted: Coq kernel (no axioms); k_may_follow as a transcription of fs/namei.c (validated exhaustively against this kernel "
-                "on the 648 combinations, not proved about Linux); T0 extractor; per-thread raw setresuid to change the caller. Partial: the "
+                "on the 1296 combinations, not proved about Linux); T0 extractor; per-thread raw setresuid to change the caller. Partial: the "
                 "lifting of the rule through the FS-level walk models is not a theorem (positions are compared on real walks).",
         "technique": "Coq proof (decision rule over unbounded uids/modes) + exhaustive three-way differential (library / kernel / model)",
     },
